@@ -218,7 +218,7 @@ func c40(c *an.Check) {
 		}
 		c.Note("thorough: NILDEREF over %d further (value, error) call sites and OWNERSHIP over %d further pool releases in %d repository functions: %d cross-reference notes, %d functions not examined (state budget of the sweep)", n1, n2, len(rest), bad, skipped)
 	}
-	sizeVTSanity(c, func(string) bool { return true })
+	pbCodecSanity(c, func(string) bool { return true })
 	nRel := c.ReleasedNotReturned("OWNERSHIP", "network decoder: returned values do not alias released pool storage", fns)
 	c.Note("OWNERSHIP examined %d sync.Pool releases in the decoder functions", nRel)
 	c.Totality(an.PanicSpec{Construct: "network decoder totality", Funcs: fns, BCE: bce, Min: 70, Preconds: pre, Reviewed: map[string]string{
@@ -308,4 +308,123 @@ func sizeVTSanity(c *an.Check, pkgs func(path string) bool) {
 		}
 		return "no SizeVT methods found in the selected packages (anchor drift)"
 	}())
+}
+
+// pbCodecSanity: structural agreement inside the generated protobuf codecs of the selected packages (they are part of
+// every "survives the binary encoding" / "never panics on wire bytes" property although no hand-written file calls
+// attention to them):
+//   - (OWNERSHIP) UnmarshalVT copies bytes fields: nothing stored into the message aliases the input buffer;
+//   - (SIBLING) a scalar field is encoded with the very conversion chain it is sized with (EncodeVarint argument in
+//     MarshalToSizedBufferVT == SizeOfVarint argument in SizeVT);
+//   - SizeVT never sizes a varint from its running total (sizeVTSanity).
+func pbCodecSanity(c *an.Check, pkgs func(rel string) bool) {
+	sizeVTSanity(c, pkgs)
+	p := c.P
+	// (a) no aliasing of the input buffer
+	nU, badU := 0, ""
+	for _, fn := range p.AllRepoFuncs() {
+		if fn.Name() != "UnmarshalVT" || fn.Parent() != nil || fn.Signature.Recv() == nil || !pkgs(strings.TrimPrefix(fn.Pkg.Pkg.Path(), an.Mod+"/")) {
+			continue
+		}
+		nU++
+		for _, b := range fn.Blocks {
+			for _, ins := range b.Instrs {
+				st, ok := ins.(*ssa.Store)
+				if !ok {
+					continue
+				}
+				if _, isSlice := st.Val.Type().Underlying().(*types.Slice); !isSlice {
+					continue
+				}
+				if _, isFA := st.Addr.(*ssa.FieldAddr); !isFA {
+					continue
+				}
+				for r := range an.AliasRoots(st.Val) {
+					if pr, isP := r.(*ssa.Parameter); isP && an.IsParam(pr, 1) {
+						badU = fmt.Sprintf("%s stores a view of its input buffer into the message at %s: the decoded value changes when the caller reuses or wipes the buffer", an.FuncName(fn), p.Pos(st.Pos()))
+					}
+				}
+			}
+		}
+	}
+	c.Require(badU == "" && nU >= 1, "OWNERSHIP", "generated UnmarshalVT methods copy what they keep", nil, "", nU, fmt.Sprintf("%d UnmarshalVT methods: no stored slice aliases the input", nU), func() string {
+		if badU != "" {
+			return badU
+		}
+		return "no UnmarshalVT methods found (anchor drift)"
+	}())
+	// (b) encode / size agreement on scalar fields
+	nM, badM := 0, ""
+	for path, pk := range p.All {
+		if !strings.HasPrefix(path, an.Mod) || !pkgs(strings.TrimPrefix(path, an.Mod+"/")) || pk.TypesInfo == nil {
+			continue
+		}
+		type key struct{ recv string }
+		enc, siz := map[string]map[string]bool{}, map[string]map[string]bool{}
+		collect := func(fd *ast.FuncDecl, fnNames []string, argIdx int, into map[string]map[string]bool) {
+			if fd.Recv == nil || len(fd.Recv.List) == 0 || fd.Body == nil {
+				return
+			}
+			recvT := types.ExprString(fd.Recv.List[0].Type)
+			recvName := ""
+			if len(fd.Recv.List[0].Names) > 0 {
+				recvName = fd.Recv.List[0].Names[0].Name
+			}
+			ast.Inspect(fd.Body, func(nd ast.Node) bool {
+				call, ok := nd.(*ast.CallExpr)
+				if !ok {
+					return true
+				}
+				name := ""
+				switch fn := call.Fun.(type) {
+				case *ast.SelectorExpr:
+					name = fn.Sel.Name
+				case *ast.Ident:
+					name = fn.Name
+				}
+				match := false
+				for _, n := range fnNames {
+					if n == name {
+						match = true
+					}
+				}
+				if !match || len(call.Args) <= argIdx {
+					return true
+				}
+				a := types.ExprString(call.Args[argIdx])
+				// only arguments that read a field of the receiver directly (not len(...) / local sizes)
+				if recvName == "" || !strings.Contains(a, recvName+".") || strings.Contains(a, "len(") {
+					return true
+				}
+				if into[recvT] == nil {
+					into[recvT] = map[string]bool{}
+				}
+				into[recvT][a] = true
+				return true
+			})
+		}
+		for _, f := range pk.Syntax {
+			for _, d := range f.Decls {
+				fd, ok := d.(*ast.FuncDecl)
+				if !ok {
+					continue
+				}
+				switch fd.Name.Name {
+				case "MarshalToSizedBufferVT":
+					collect(fd, []string{"EncodeVarint"}, 2, enc)
+				case "SizeVT":
+					collect(fd, []string{"SizeOfVarint", "SizeOfZigzag"}, 0, siz)
+				}
+			}
+		}
+		for recv, es := range enc {
+			nM++
+			for e := range es {
+				if !siz[recv][e] {
+					badM = fmt.Sprintf("%s %s: MarshalToSizedBufferVT encodes %s but SizeVT does not size that expression: the buffer budget and the bytes written disagree for some values", path, recv, e)
+				}
+			}
+		}
+	}
+	c.Require(badM == "", "SIBLING", "generated codecs encode scalar fields with the conversion they are sized with", nil, "", nM, fmt.Sprintf("%d message types", nM), badM)
 }
